@@ -16,7 +16,8 @@ EXPLANATION = (
     "fixed-length strings are allocated with their declared length; (R5) LBOUND/UBOUND report field "
     "0 / field 1 of the declared bounds; (R6) the stride of each dimension in abs_index is a "
     "loop-carried product of the dimension sizes; (R7) conversions between the type-describing enums "
-    "preserve the kind of type (fixed-length string, user-defined, built-in) arm by arm.")
+    "preserve the kind of type (fixed-length string, user-defined, built-in) arm by arm; (R8) the "
+    "casting emitter converts on every path of its BuiltIn and FixedLengthString arms.")
 NOT_DECIDED = ["bijectivity of the flat index map (stride arithmetic) and element values (value-level)"]
 
 
@@ -333,6 +334,47 @@ def r7_kind_preserving_conversions(ctx, rule="C04.R7"):
     ctx.require(rule, 18)
 
 
+def r8_casting_emitter(ctx, rule="C04.R8"):
+    """generate_expression_instructions_casting is the one place that converts a value to the type
+    of its target (R1 / C06.R2 accept it by name).  Its shape is checked: whenever the types differ,
+    a built-in target gets Cast(q) and a STRING * n target gets FixLength(n) on every path of the
+    arm - no further condition (such as `the source is a fixed-length string too`) may skip it."""
+    prog = ctx.prog
+    f = ctx.anchor_method("InstructionGenerator", "generate_expression_instructions_casting")
+    evs = emit.events(prog, f)
+    sws = [s for s in mir.enum_switches(prog, f.body) if s.adt.endswith("::ExpressionType")]
+    if not sws:
+        raise CheckError("casting emitter: no match over the target ExpressionType")
+    sw = max(sws, key=lambda s: len(s.arms))
+    body = f.body
+    exits = set(body.exits())
+    for variant, instr in (("BuiltIn", "Cast"), ("FixedLengthString", "FixLength")):
+        tgt = sw.arms.get(variant)
+        if tgt is None:
+            ctx.violation(rule, "%s:%s-arm" % (rule, variant), f.loc,
+                          "the casting emitter has no arm for a %s target" % variant, {})
+            continue
+        through = {b for b, e in evs.items() if e.kind == "push" and e.instr == instr}
+        ok = bool(through) and body.every_path_passes(tgt, exits, through)
+        ctx.decide(ok, rule, "%s:%s-target-always-converted" % (rule, variant), f.loc,
+                   "every path of the arm pushes %s" % instr,
+                   "for a %s target some path of the casting emitter pushes no %s: the value reaches the "
+                   "variable unconverted (a STRING * 8 value stored in a STRING * 3 variable keeps 8 characters)"
+                   % (variant, instr))
+    # the guard in front of the match is the inequality of the two types and nothing else
+    pv = mir.Prov(body)
+    ok_guard = False
+    for b in range(body.nblocks):
+        t = body.term(b)
+        if t["k"] == "switch" and body.dominates(b, sw.bb) and t.get("ty") == "bool":
+            o = mir.strip_all(pv.of_operand(t["o"]))
+            if o[0] == "call" and o[1].split("::")[-1] in ("ne", "eq"):
+                ok_guard = True
+    ctx.decide(ok_guard, rule, rule + ":guard-is-type-inequality", f.loc, "guarded by expression_type != target_type",
+               "the conversion is no longer guarded by the comparison of the two types")
+    ctx.require(rule, 3)
+
+
 def run(ctx):
     common.install(ctx)
     c06.r2_store_routes(ctx, "C04.R1", strings_only=True)
@@ -342,3 +384,4 @@ def run(ctx):
     r5_bounds_reported(ctx)
     r6_stride_is_running_product(ctx)
     r7_kind_preserving_conversions(ctx)
+    r8_casting_emitter(ctx)
